@@ -38,6 +38,10 @@ type Case struct {
 	// Lenient: inputs beyond the recorded ones take their zero value (used when
 	// the executor could not finish a path and only its prefix is known).
 	Lenient bool `json:"lenient"`
+	// DeadlineMs > 0: a deadlock candidate - the harness runs on a goroutine of
+	// its own and the case is reported as timed out when it has not returned
+	// after this long.
+	DeadlineMs int `json:"deadline_ms"`
 }
 
 type Result struct {
@@ -48,6 +52,7 @@ type Result struct {
 	Observes []Obs    `json:"observes"`
 	Covers   []string `json:"covers"`
 	Assumed  bool     `json:"assume_failed"`
+	TimedOut bool     `json:"timed_out"`
 }
 
 var (
@@ -208,7 +213,7 @@ func runCase(c *Case, f func()) *Result {
 	r := &Result{Harness: c.Harness}
 	{
 		cur, pos, res, tier = c, 0, r, c.Tier
-		func() {
+		body := func() {
 			defer func() {
 				if p := recover(); p != nil {
 					switch x := p.(type) {
@@ -226,7 +231,26 @@ func runCase(c *Case, f func()) *Result {
 			if pos != len(c.Nondets) && r.Diverged == "" && !c.Lenient {
 				r.Diverged = fmt.Sprintf("harness consumed %d of %d recorded nondets", pos, len(c.Nondets))
 			}
-		}()
+		}
+		if c.DeadlineMs > 0 {
+			done := make(chan struct{})
+			go func() {
+				defer close(done)
+				body()
+			}()
+			select {
+			case <-done:
+			case <-time.After(time.Duration(c.DeadlineMs) * time.Millisecond):
+				// the harness goroutine stays blocked; the result is a copy so
+				// that a late wake-up cannot race with the report
+				out := *r
+				out.TimedOut = true
+				out.Panic = fmt.Sprintf("deadlock: the harness did not return within %d ms", c.DeadlineMs)
+				return &out
+			}
+		} else {
+			body()
+		}
 		cur, res = nil, nil
 	}
 	return r
